@@ -86,6 +86,7 @@ class Run:
         self.m.on_unit_changed.Register(self._on_unit)
         self.shared = {"length": "m", "time": "s"}  # one dict handed to several AddUnitSystem calls
         self.objects = {}  # id -> unit system object as returned by AddUnitSystem (kept like a client would)
+        self.ghosts = {}  # id -> the object that was registered under that id and has been removed (a new one may bear the id now)
         self.pushed = 0
 
     def close(self):
@@ -117,7 +118,7 @@ class Run:
         if k in ("setdefault", "removecat", "readonly"):
             return act[1] in self.M.systems
         if k in ("ghost-setdefault", "ghost-removecat"):
-            return act[1] in self.objects and (act[1] not in self.M.systems or self.m.GetUnitSystems().get(act[1]) is not self.objects[act[1]])
+            return act[1] in self.ghosts
         if k == "pushdb":
             return self.pushed == 0
         if k == "popdb":
@@ -142,6 +143,8 @@ class Run:
                 exp = M.remove(act[1])
                 # (the id as an equal string that is another object: one that was formatted, joined or read from a file)
                 m.RemoveUnitSystem("".join(list(act[1])) if len(act[1]) > 1 else (act[1] + "x")[:-1])
+                if act[1] in self.objects:
+                    self.ghosts[act[1]] = self.objects.pop(act[1])
             elif k == "setcur":
                 exp = M.set_current(act[1])
                 if act[2:] == ("property",):
@@ -159,10 +162,10 @@ class Run:
                 m.GetUnitSystems()[act[1]].RemoveCategory(act[2])
             elif k == "ghost-setdefault":
                 exp = "ok"
-                self.objects[act[1]].SetDefaultUnit(act[2], act[3])
+                self.ghosts[act[1]].SetDefaultUnit(act[2], act[3])
             elif k == "ghost-removecat":
                 exp = "ok"
-                self.objects[act[1]].RemoveCategory(act[2])
+                self.ghosts[act[1]].RemoveCategory(act[2])
             elif k == "pushdb":
                 from barril.units import UnitDatabase
 
@@ -421,6 +424,13 @@ def run(ctx):
                     break
         ctx.exhaustive = True
         ctx.notes["bounded_exhaustive"] = {"alphabet": n, "depth": depth, "sequences_total": total}
+        # histories longer than the exhaustive depth, written around an id that is used again after its system was removed (the
+        # client still holds the removed object) - with and without the new bearer of the id being current
+        if ctx.shard == 0:
+            for mid in ([], [("setcur", "a")], [("add", "b", "m3"), ("setcur", "b")], [("setcur", None)]):
+                for tail in ([("ghost-setdefault", "a", "length", "km")], [("ghost-removecat", "a", "length")], [("ghost-setdefault", "a", "length", "km"), ("setdefault", "a", "length", "cm")]):
+                    run_random(E, [("add", "a", "m1"), ("remove", "a"), ("add", "a", "m2")] + mid + tail + [("convert", "length", "m", 5.0), ("remove", "a"), ("ghost-setdefault", "a", "length", "km"), ("convert", "length", "m", 5.0)])
+                    ctx.count("scripted histories around a re-used id")
         r = ctx.rng("random")
         for _ in range(800 if ctx.tier == "quick" else 8000):
             run_random(E, random_history(r, r.randint(10, 60)))
